@@ -60,7 +60,7 @@ def gen_cases(tier, seed):
                               "type": rng.choice(["cartesian", "spherical"])})
         else:
             basis = [cg.shell(rng, rng.randint(0, 3), K=rng.randint(1, 2), M=rng.randint(1, 2), hi=50.0, lo=0.1,
-                              bits=10 if quick else 24, cen=rng.choice(cens)) for _ in range(nsh)]
+                              bits=24, cen=rng.choice(cens)) for _ in range(nsh)]
         nn = rng.randint(1, 5)
         nuclei = []
         for k in range(nn):
